@@ -2,7 +2,8 @@
 
 One small bgzipped+tabixed VCF, 3 samples, 3 contigs with records (c1, c2, c3_random - the last one is
 never cached by AlleleResolver because of its name) and the name of a contig that does not occur in the
-file at all.  Every contig carries EVERY genotype class of the template below; contig k shifts all
+file at all.  Every contig carries EVERY genotype class of the template below (including haploid / triploid genotypes,
+lower-case bases, the * allele, duplicate positions and multi-allelic records that mix SNV and indel); contig k shifts all
 positions by k and rotates the genotype columns by k samples, so that no two contigs (and no two sample
 selections) have the same answers - mixing up contigs, samples or cache files is visible.
 """
@@ -41,21 +42,37 @@ TEMPLATE = [
     (26, 'T', 'A', '0|0', '1|.', '1|1', 'half-missing genotype'),
     (28, 'C', '.', '0|0', '.|.', '0|0', 'reference-only record (ALT .) with a missing genotype'),
     (29, 'G', '.', '0|0', '0|0', '0|0', 'reference-only record, every sample called'),
+    # --- VCF peculiarities (audit): all legal VCF, all inside "all VCFs" of the quantifier
+    (31, 'C', 'A', '0', '1', '0', 'haploid genotypes'),
+    (32, 'G', 'T', '1', '.', '0', 'haploid genotypes, one missing (adjacent)'),
+    (34, 'c', 'a', '0|0', '1|1', '0|1', 'lower-case bases'),
+    (36, 'C', '*', '0|0', '1|1', '0|1', 'spanning-deletion allele *'),
+    (38, 'C', 'A', '0|0', '1|1', '0|1', 'duplicate position, first record'),
+    (38, 'C', 'G', '0|1', '0|0', '0|0', 'duplicate position, second record'),
+    (40, 'C', 'A,CT', '0|1', '0|0', '1|1', 'multi-allelic SNV + insertion, the insertion is not carried'),
+    (42, 'C', 'A', '0|0', '1|1', '0|1', 'duplicate position whose second record is an insertion, first record'),
+    (42, 'C', 'CT', '0|1', '0|0', '0|0', 'duplicate position whose second record is an insertion, second record'),
+    (44, 'T', 'G', '0/0/1', '1/1/1', '0/0/0', 'triploid genotypes'),
+    (45, 'G', 'A,C,T', '1|2', '3|3', '0|0', 'four alleles (adjacent)'),
 ]
 MAX_POS0 = max(t[0] for t in TEMPLATE) - 1 + len(CONTIGS) - 1    # largest 0-based site position
 PROBE_POSITIONS = tuple(range(0, MAX_POS0 + 2))                     # every position 0 .. one past the last site
 PROBE_BASES = ('A', 'C', 'G', 'T')
 
 
+# the records of c2 come first in the file although the header declares c1 first (contig order of the file != header order)
+FILE_ORDER = ('c2', 'c1', 'c3_random')
+
+
 def records():
     """[(contig, pos1, ref, alt, (gt S1, gt S2, gt S3), class)] in file order"""
-    out = []
+    per = {}
     for k, contig in enumerate(CONTIGS):
         for pos, ref, alt, g1, g2, g3, cls in TEMPLATE:
             gts = [g1, g2, g3]
             gts = gts[-k:] + gts[:-k] if k else gts
-            out.append((contig, pos + k, ref, alt, tuple(gts), cls))
-    return out
+            per.setdefault(contig, []).append((contig, pos + k, ref, alt, tuple(gts), cls))
+    return [r for contig in FILE_ORDER for r in per[contig]]
 
 
 def vcf_text():
@@ -90,3 +107,54 @@ def clone(master_dir, directory):
     for name in (VCF_NAME, VCF_NAME + '.tbi'):
         shutil.copyfile(os.path.join(master_dir, name), os.path.join(directory, name))
     return os.path.join(directory, VCF_NAME)
+
+
+# ---- second VCF: contig NAMES (audit).  The cache is per contig and the resolver decides by the NAME whether a contig is
+# cached at all (KN*, KZ*, chrUn*, *_random, *ERCC* are not); one name is a prefix of another (chr5 / chr5_alt), one carries
+# characters that are legal in a contig name but unusual in a file name.
+NAME_CONTIGS = ('chr5', 'chr5_alt', 'KN1', 'KZ2', 'chrUn_3', 'x_random', 'ERCC-4', 'HLA-A*01', 'chr5_al')
+NAME_UNCACHED = ('KN1', 'KZ2', 'chrUn_3', 'x_random', 'ERCC-4')
+NAME_TEMPLATE = [t for t in TEMPLATE if t[0] in (1, 2, 3, 5, 6, 8, 18, 19, 21)]
+NAME_MAX_POS0 = max(t[0] for t in NAME_TEMPLATE) - 1 + len(NAME_CONTIGS) - 1
+NAME_PROBE_POSITIONS = tuple(range(0, NAME_MAX_POS0 + 2))
+NAMES_VCF = 'names.vcf.gz'
+
+
+def name_records():
+    out = []
+    for k, contig in enumerate(NAME_CONTIGS):
+        for pos, ref, alt, g1, g2, g3, cls in NAME_TEMPLATE:
+            gts = [g1, g2, g3]
+            r = k % 3
+            gts = gts[-r:] + gts[:-r] if r else gts
+            out.append((contig, pos + k, ref, alt, tuple(gts), cls))
+    return out
+
+
+def names_vcf_text():
+    lines = ['##fileformat=VCFv4.2']
+    for c in NAME_CONTIGS:
+        lines.append(f'##contig=<ID={c},length={CONTIG_LENGTH}>')
+    lines.append('##FORMAT=<ID=GT,Number=1,Type=String,Description="Genotype">')
+    lines.append('#CHROM\tPOS\tID\tREF\tALT\tQUAL\tFILTER\tINFO\tFORMAT\t' + '\t'.join(SAMPLES))
+    for contig, pos, ref, alt, gts, _ in name_records():
+        lines.append(f'{contig}\t{pos}\t.\t{ref}\t{alt}\t.\tPASS\t.\tGT\t' + '\t'.join(gts))
+    return '\n'.join(lines) + '\n'
+
+
+def build_names(directory):
+    import pysam
+    plain = os.path.join(directory, 'names.vcf')
+    with open(plain, 'w') as f:
+        f.write(names_vcf_text())
+    gz = os.path.join(directory, NAMES_VCF)
+    pysam.tabix_compress(plain, gz, force=True)
+    pysam.tabix_index(gz, preset='vcf', force=True)
+    return gz
+
+
+def clone_names(master_dir, directory):
+    os.makedirs(directory, exist_ok=True)
+    for name in (NAMES_VCF, NAMES_VCF + '.tbi'):
+        shutil.copyfile(os.path.join(master_dir, name), os.path.join(directory, name))
+    return os.path.join(directory, NAMES_VCF)
